@@ -114,6 +114,10 @@ Definition acceptable_as_coded (mn mx rev : option Z) : bool :=
               end
   end.
 
+(* what the code variant computes: the natural reading once fixes/F21.diff is applied *)
+Definition acceptable_for (fx : bool) : option Z -> option Z -> option Z -> bool :=
+  if fx then acceptable else acceptable_as_coded.
+
 (* malformedness class of a policy object (ENone = well-formed) *)
 Definition req_times_ok (r : reqobj) : bool :=
   match rq_tag r with None => true | Some _ => negb (tf_bad (rq_min r)) && negb (tf_bad (rq_max r)) end.
@@ -291,18 +295,25 @@ Definition spec_sig_ex (sigs : smap sigobj) (k : string) (o : sigobj) : UserSigE
     if in_force sigs k o then sig_base o else sig_set_invalid (sig_base o) EDup
   else sig_base o.
 
-Definition spec_pol_ex (sigexs : smap UserSigEx) (k : string) (o : polobj) : PolicyEx :=
+Definition spec_pol_ex (fx : bool) (sigexs : smap UserSigEx) (k : string) (o : polobj) : PolicyEx :=
   let p := fst (create_policy_ex o) in
   if p_valid p then
-    if verify_policy_against_user_sigs sigexs p then p else pol_set_invalid p EMissing
+    if verify_policy_against_user_sigs fx sigexs p then p else pol_set_invalid p EMissing
   else p.
 
-Definition spec_state (enabled : bool) (ob : objects) : state :=
+Definition spec_state (fx : bool) (enabled : bool) (ob : objects) : state :=
   let sigexs := mapk (spec_sig_ex (ob_sig ob)) (ob_sig ob) in
-  {| waf := {| policies := mapk (spec_pol_ex sigexs) (ob_pol ob);
+  {| waf := {| policies := mapk (spec_pol_ex fx sigexs) (ob_pol ob);
                logconfs := mapk (fun _ o => fst (create_logconf_ex o)) (ob_log ob);
                usersigs := sigexs |};
      dos := {| dpols := mapk (fun _ o => {| dpe_obj := o; dpe_valid := dp_valid o |}) (ob_dpol ob);
                dlogs := mapk (fun _ o => {| dle_obj := o; dle_valid := dl_valid o |}) (ob_dlog ob);
                dprs := mapk (fun _ o => create_dos_pr_ex o) (ob_dpr ob);
                d_enabled := enabled |} |}.
+
+Definition spec_waf (fx : bool) (ob : objects) : wstate := waf (spec_state fx true ob).
+Definition spec_dos (en : bool) (ob : objects) : dstate :=
+  {| dpols := mapk (fun _ o => {| dpe_obj := o; dpe_valid := dp_valid o |}) (ob_dpol ob);
+     dlogs := mapk (fun _ o => {| dle_obj := o; dle_valid := dl_valid o |}) (ob_dlog ob);
+     dprs := mapk (fun _ o => create_dos_pr_ex o) (ob_dpr ob);
+     d_enabled := en |}.
